@@ -1,8 +1,10 @@
 (* C06 — restarts and failed status writes.  Statements only; proofs in
    Proofs/CtrlWorldP.v, CtrlThmP.v, CtrlRestartP.v.
-   SCOPE.  Safety at quiescence + the restart theorem.  NOT proved: that quiescence is
-   reached once writes succeed (no progress theorem for the retry loop of a full pass;
-   C01_oracle_exists_for_wellformed_pools only shows every enabled step can be taken).
+   SCOPE.  Safety at quiescence + the restart theorem + (last section) progress: after a
+   restart and the delivery of a well-formed configuration the new instance runs out of
+   work within a proved bound once writes succeed, and then memory equals the statuses
+   (C06_restart_settles; Services with explicitly requested addresses excluded, see
+   Proofs/CtrlProgressP.v).  Fairness of the work queue and timers is the runtime's.
    The model handles a full pass atomically; in the Go code a configuration change (a
    separate reconciler) can be handled between two Services of a pass, a pass can be
    aborted by a List error, and a handler can see a stale copy of a Service: these are
@@ -233,3 +235,26 @@ Proof.
   - repeat split; try reflexivity; try discriminate. eexists. split; [vm_compute; reflexivity|]. split; [intros p Hp; discriminate|left; reflexivity].
   - eexists. split; reflexivity.
 Qed.
+
+
+(* ---------- progress after a restart ---------- *)
+From Verif Require Import Proofs.CtrlTotalP Proofs.CtrlProgressP.
+
+(* Any reachable world, then a restart and the first configuration delivery (distinct
+   names, disjoint pools; no Service requests explicit addresses): some run of at most
+   [budget] reconciler steps with successful writes - and, by C07_resync_loop_terminates,
+   every such run is at most that long - ends with nothing pending and the first pass
+   done, and there the controller's memory is exactly what the statuses record. *)
+Theorem C06_restart_settles : forall rank evs0 w ps,
+  wrun rank evs0 world0 = Some w ->
+  names_unique ps -> pools_disjoint (by_name ps) ->
+  (forall s o, aget (w_api w) s = Some o -> o_want o = WNone) ->
+  exists wp evs w', wrun rank [ECrash; EPools ps] w = Some wp /\
+    Forall rev_ev evs /\ (length evs <= budget wp)%nat /\
+    wrun rank (evs0 ++ [ECrash; EPools ps] ++ evs) world0 = Some w' /\ quiescent w' /\
+    forall s, match aget (w_api w') s with
+              | Some o => same_ips (ips_of (c_mem (w_ctl w')) s) (o_status o)
+              | None => get_alloc (c_mem (w_ctl w')) s = None
+              end.
+Proof. exact restart_settles. Qed.
+Print Assumptions C06_restart_settles.
